@@ -511,3 +511,134 @@ Proof.
       rewrite Hx, existsb_app. cbn [existsb fst]. rewrite H1. cbn [orb].
       rewrite orb_false_r. reflexivity.
 Qed.
+
+(* ---- from the OrderedDict of ReadTarFS to component-keyed entries ---- *)
+Definition centries_of (es : list (str * member)) : list (list str * member) :=
+  map (fun e => (comps (fst e), snd e)) es.
+
+Lemma tar_tree_ctree es : tar_tree es = ctree (centries_of es).
+Proof.
+  unfold tar_tree, ctree, centries_of. generalize empty_dir.
+  induction es as [|e es IH]; intro t; [reflexivity|]. cbn [map fold_left fst snd]. apply IH.
+Qed.
+
+Definition safe_keys (es : list (str * member)) : Prop := Forall (fun e => safe_name (fst e)) es.
+
+Lemma NoDup_snoc {A} (l : list A) x : NoDup l -> ~ In x l -> NoDup (l ++ [x]).
+Proof.
+  induction l as [|a l IH]; intros Hn Hi; cbn [app].
+  - constructor; [intros []|constructor].
+  - inversion Hn; subst. constructor.
+    + rewrite in_app_iff. intros [H|[H|[]]]; [contradiction|]. subst. apply Hi. now left.
+    + apply IH; [assumption|]. intro H. apply Hi. now right.
+Qed.
+
+Lemma tar_entries_safe ms : safe_keys (tar_entries ms) /\ NoDup (keys (tar_entries ms)).
+Proof.
+  unfold tar_entries.
+  assert (G : forall d, safe_keys d /\ NoDup (keys d) ->
+    safe_keys (fold_left (fun d m => match tar_key (m_name m) with
+                                     | Some k => assoc_set k m d
+                                     | None => d
+                                     end) ms d) /\
+    NoDup (keys (fold_left (fun d m => match tar_key (m_name m) with
+                                       | Some k => assoc_set k m d
+                                       | None => d
+                                       end) ms d))).
+  { induction ms as [|m ms IH]; intros d [Hs Hn]; [split; assumption|]. cbn [fold_left]. apply IH.
+    destruct (tar_key (m_name m)) as [k|] eqn:K; [|split; assumption]. split.
+    - apply Forall_assoc_set; [exact Hs|]. cbn [fst]. eapply tar_key_safe; eauto.
+    - destruct (assoc k d) as [x|] eqn:A.
+      + rewrite (keys_assoc_set_some _ _ _ _ A). exact Hn.
+      + rewrite (keys_assoc_set_none _ _ _ A). apply NoDup_snoc; [exact Hn|].
+        now apply assoc_none_notin. }
+  apply G. split; constructor.
+Qed.
+
+Lemma comps_safe cs : cs <> [] -> Forall good cs -> comps (to_path false cs) = cs.
+Proof. intros N G. unfold comps. rewrite split_to_path by assumption. reflexivity. Qed.
+
+Lemma to_path_false_eqb a b : Forall good a -> Forall good b ->
+  str_eqb (to_path false a) (to_path false b) = path_eqb a b.
+Proof.
+  intros Ga Gb. destruct (path_eqb a b) eqn:E.
+  - apply path_eqb_eq in E. subst. apply str_eqb_refl.
+  - apply str_eqb_neq. intro H.
+    assert (H' : to_path true a = to_path true b).
+    { unfold to_path in *. cbn [app] in *. now rewrite H. }
+    apply to_path_inj in H'; auto. subst. now rewrite path_eqb_refl in E.
+Qed.
+
+Lemma cassoc_centries es p : safe_keys es -> Forall good p ->
+  cassoc p (centries_of es) = assoc (to_path false p) es.
+Proof.
+  intros Hs Hp. induction es as [|[k v] es IH]; [reflexivity|].
+  inversion Hs as [|? ? Hk Hs']; subst. cbn [fst] in Hk. destruct Hk as (cs & N & G & ->).
+  unfold centries_of in *. cbn [map cassoc assoc fst snd]. rewrite comps_safe by assumption.
+  rewrite to_path_false_eqb by assumption. rewrite IH by assumption. reflexivity.
+Qed.
+
+Lemma existsb_centries es p : safe_keys es -> Forall good p ->
+  existsb (fun e => cprefix p (fst e)) (centries_of es)
+  = existsb (fun e => isbase (to_path false p) (fst e)) es.
+Proof.
+  intros Hs Hp. induction es as [|[k v] es IH]; [reflexivity|].
+  inversion Hs as [|? ? Hk Hs']; subst. cbn [fst] in Hk. destruct Hk as (cs & N & G & ->).
+  unfold centries_of in *. cbn [map existsb fst snd]. rewrite comps_safe by assumption.
+  rewrite isbase_nf by assumption. rewrite IH by assumption. reflexivity.
+Qed.
+
+Lemma NoDup_map_inj {A B} (f : A -> B) l :
+  (forall x y, In x l -> In y l -> f x = f y -> x = y) -> NoDup l -> NoDup (map f l).
+Proof.
+  induction l as [|a l IH]; intros Hi Hn; cbn [map]; [constructor|].
+  inversion Hn; subst. constructor.
+  - intro H. apply in_map_iff in H as (y & E & Hy).
+    assert (y = a) by (apply Hi; [now right|now left|exact E]). subst. contradiction.
+  - apply IH; [|assumption]. intros x y Hx Hy. apply Hi; now right.
+Qed.
+
+Lemma centries_ok es : safe_keys es -> NoDup (keys es) ->
+  Forall (fun e : list str * member => fst e <> []) (centries_of es) /\
+  NoDup (map fst (centries_of es)).
+Proof.
+  intros Hs Hn. split.
+  - unfold centries_of. apply Forall_map. eapply Forall_impl; [|exact Hs].
+    intros [k v] (cs & N & G & E). cbn [fst] in *. subst k. now rewrite comps_safe.
+  - unfold centries_of. rewrite map_map. cbn [fst].
+    change (map (fun x : str * member => comps (fst x)) es) with (map (fun x => comps (fst x)) es).
+    rewrite <- (map_map fst comps). apply NoDup_map_inj; [|exact Hn].
+    intros x y Hx Hy E.
+    assert (Sx : forall z, In z (keys es) -> safe_name z).
+    { intros z Hz. unfold keys in Hz. apply in_map_iff in Hz as ([k v] & <- & Hin).
+      unfold safe_keys in Hs. rewrite Forall_forall in Hs. exact (Hs _ Hin). }
+    destruct (Sx x Hx) as (c1 & N1 & G1 & ->). destruct (Sx y Hy) as (c2 & N2 & G2 & ->).
+    rewrite !comps_safe in E by assumption. now subst.
+Qed.
+
+Theorem tar_tree_isdir : forall ms p, Forall good p ->
+  (forall p1 p2 m, p = p1 ++ p2 -> p1 <> [] -> p2 <> [] ->
+                   assoc (to_path false p1) (tar_entries ms) = Some m -> m_dir m = true) ->
+  ((exists e mt, lookup (tar_read ms) p = Some (Dir e mt))
+   <-> tar_isdir_q (tar_entries ms) (to_path false p) = true).
+Proof.
+  intros ms p G H. destruct (tar_entries_safe ms) as [Hs Hn].
+  destruct (centries_ok _ Hs Hn) as [Hne Hnd].
+  assert (K : kind_of (tar_read ms) p = kspec (centries_of (tar_entries ms)) p).
+  { unfold tar_read. rewrite tar_tree_ctree. apply ctree_kind; [exact Hne|exact Hnd|].
+    intros p1 p2 m E N1 N2 C. apply (H p1 p2 m E N1 N2). rewrite <- cassoc_centries; auto.
+    subst p. apply Forall_app in G as [G1 _]. exact G1. }
+  unfold kspec in K. rewrite cassoc_centries, existsb_centries in K by assumption.
+  unfold tar_isdir_q.
+  assert (Hemp : is_empty (to_path false p) = is_nil p).
+  { destruct p; [reflexivity|]. apply is_empty_to_path; [discriminate|assumption]. }
+  rewrite Hemp. unfold kind_of in K.
+  split.
+  - intros (e & mt & L). rewrite L in K.
+    destruct (assoc (to_path false p) (tar_entries ms)) as [m|].
+    + destruct (m_dir m); [reflexivity|discriminate].
+    + destruct (is_nil p || _); [reflexivity|discriminate].
+  - intro T. destruct (assoc (to_path false p) (tar_entries ms)) as [m|]; rewrite T in K;
+      destruct (lookup (tar_read ms) p) as [[d x|e mt]|]; try discriminate; eauto.
+Qed.
+Print Assumptions tar_tree_isdir.
